@@ -22,6 +22,7 @@ spec("wf(h)", "(h.size == 0 and h.length == 0 and h.heap_entries is None) or "
               "and forall(2, h.length, lambda j: ordered(h, j)))")
 spec("same_entry(a, b)", "a.time_quotient == b.time_quotient and a.time_remainder == b.time_remainder and "
                          "same(a.event_handler, b.event_handler) and a.counter == b.counter")
+spec("is_new(e, q, r, h, c)", "e.time_quotient == q and e.time_remainder == r and same(e.event_handler, h) and e.counter == c")
 spec("is_marker(e)", "e.time_quotient == -inf and e.time_remainder == -inf and e.event_handler is None and e.counter == 2**32 - 1")
 
 # the root of a heap-ordered array is minimal: consequence of the parent order by strong induction on the index;
@@ -46,11 +47,18 @@ contract(F + "insert", "C06", model="R",
              "implies(result != 2**64 - 1, result == heap.size * sizeof_struct_HeapEntry())",
              # the block is either the old one or a newly allocated one (never somebody else's memory)
              "heap.heap_entries is None or same(heap.heap_entries, old(heap.heap_entries)) or fresh(heap.heap_entries)",
+             # nothing else is invented: if no stored entry had handler ghost_h, the only entry with it is the new one
+             "implies(result != 2**64 - 1 and forall(1, old(heap.length), lambda i: not same(old(E(heap, i)).event_handler, ghost_h)), "
+             "forall(1, heap.length, lambda j: implies(same(E(heap, j).event_handler, ghost_h), is_new(E(heap, j), "
+             "time_quotient, time_remainder, event_handler, counter))))",
          ],
+         ghost={"params": {"ghost_h": "any"}},
          loops={0: LoopSpec(
              modifies=["contents(heap.heap_entries)"],
              invariant=[
                  "block_ok(heap) and 1 <= position < heap.length and position < 2**31",
+                 "implies(forall(1, old(heap.length), lambda i: not same(old(E(heap, i)).event_handler, ghost_h)), "
+                 "forall(1, heap.length, lambda j: implies(j != position, not same(E(heap, j).event_handler, ghost_h))))",
                  "parent_position == position // 2",
                  "is_sentinel(E(heap, 0))",
                  "forall(1, heap.length, lambda j: implies(j != position, real_time(E(heap, j))))",
